@@ -7,6 +7,7 @@ CONSTANTS
   Clusters = {}
   HFronts = {}
   TFronts = {}
+  UFronts = {}
   Backends = {}
   Verbs <- VerbsFaults
   MaxReq = 4
